@@ -44,7 +44,53 @@ def classify(cond, BOARD_LOOP, MV):
     if c[0] == 'call' and (c[1] == 'core::cmp::PartialEq::ne' or c[1].endswith('PartialEq>::ne') or c[1].endswith('PartialEq>::eq')):
         if all(a[0] == 'call' and a[1] == 'board::Board::castle_rights' for a in c[2]):
             return 'rights-changed'
+        none = ('agg', 'core::option::Option', 'None', ())
+        for x, y in ((c[2][0], c[2][1]), (c[2][1], c[2][0])) if len(c[2]) == 2 else ():
+            if y == none and match(call('board::Board::piece_on', V('b'), dst), x) is not None:
+                return 'not-capture' if c[1].endswith('::eq') else 'capture'
+    # the same tests spelled with `match` / `matches!` / `if let`: the Option tag and the piece inside it
+    if c[0] == 'discr':
+        if match(call('board::Board::piece_on', V('b'), src), c[1]) is not None:
+            return 'src-tag'
+        if match(call('board::Board::piece_on', V('b'), dst), c[1]) is not None:
+            return 'dst-tag'
+        if match(('field', ('variant', call('board::Board::piece_on', V('b'), src), 'Some'), '0'), c[1]) is not None:
+            return 'src-piece'
     return 'other: ' + sh(c, 160)
+
+
+def move_kind_decide(facts, ELEM, mm_disc, MV, ismove, pawn, capture, rights, unknown, NEXT=None):
+    """decision function for eval_tree: the outcome of every condition of the replay loop body for a move of the given kind
+    (rights=None: explore both outcomes of a castling-rights comparison)"""
+    PAWN = facts.enum_discr('piece::Piece', 'Pawn')
+
+    def decide(c, vals):
+        cn = norm(c)
+        if cn[0] == 'discr' and cn[1] == ELEM:
+            return mm_disc if ismove else 'otherwise'
+        if NEXT is not None and cn == ('discr', NEXT):
+            return 1                         # inside an iteration: the iterator yielded Some
+        k = classify(c, None, MV)
+        if k == 'pawn-move':
+            return as_bool(pawn, vals)
+        if k == 'capture':
+            return as_bool(capture, vals)
+        if k == 'not-capture':
+            return as_bool(not capture, vals)
+        if k == 'dst-tag':
+            return 1 if capture else 0
+        if k == 'src-tag':
+            return 1 if pawn else None          # not a pawn move: empty source or another piece
+        if k == 'src-piece':
+            if pawn:
+                return PAWN
+            others = [v for v in vals if v not in (PAWN,)]
+            return others or None
+        if k == 'rights-changed':
+            return None if rights is None else as_bool(rights, vals)
+        unknown.append(k)
+        return None
+    return decide
 
 
 ITER = 'core::iter::traits::iterator::Iterator::'
@@ -80,12 +126,23 @@ def count_idiom(ctx, s, true_blk):
                        ('agg', 'core::ops::range::RangeTo', 'RangeTo', (('end', LAST),)))))), src)
         if m is None:
             return ('inconclusive', 'counting form: the counted sequence is not `list[..len-1].iter()` followed by rev/skip/step_by: ' + sh(src, 160), st['line'])
-        if clo[0] != 'closure' or len(clo[2]) != 1 or match(('index', m['l'], ('bin', 'Sub', call('alloc::vec::Vec::<T, A>::len', m['l']), ('int', 1, 'usize'))), clo[2][0]) is None:
+        cap = clo[2][0] if clo[0] == 'closure' and len(clo[2]) == 1 else None
+        if cap is not None and cap[0] == 'call' and cap[1].endswith('::clone') and len(cap[2]) == 1:
+            cap = cap[2][0]          # a clone of the last entry compares like the entry
+        if cap is None or match(('index', m['l'], ('bin', 'Sub', call('alloc::vec::Vec::<T, A>::len', m['l']), ('int', 1, 'usize'))), cap) is None:
             return ('inconclusive', 'counting form: the filter closure does not capture exactly the last entry: ' + sh(clo, 160), st['line'])
         cs = ctx.an().summary(clo[1])
         r = norm(cs.ret) if cs is not None else None
+        def deref(a):
+            # the predicate may compare through any number of reference layers: `*x == current`, `**x == *current`
+            while isinstance(a, tuple) and a and a[0] == 'mem' and isinstance(a[1], tuple) and a[1] and a[1][0] == 'h':
+                a = a[1][1]
+            if isinstance(a, tuple) and a and a[0] == 'mem' and a[1] == ('p', 2):
+                return ('param', 2)
+            return a
+        sides = {sh(deref(a)) for a in r[2]} if (r is not None and r[0] == 'call') else set()
         if r is None or not (r[0] == 'call' and r[1].endswith('::eq') and 'PartialEq' in r[1] and
-                             {sh(a) for a in r[2]} == {sh(('param', 2)), sh(('mem', ('h', ('field', ('mem', ('p', 1)), '0'))))}):
+                             sides == {sh(('param', 2)), sh(('field', ('mem', ('p', 1)), '0'))}):
             return ('inconclusive', 'counting form: the filter predicate is not `entry == last`: ' + (sh(r, 160) if r else '?'), st['line'])
         # distances examined: list index last-d  <->  distance d >= 1
         rev = False
@@ -221,21 +278,7 @@ def run(ctx):
             for pawn in (True, False):
                 for capture in (True, False):
                     for rights in (True, False):
-                        def decide(c, vals):
-                            cn = norm(c)
-                            if cn[0] == 'discr' and cn[1] == ELEM:
-                                return mm_disc if ismove else 'otherwise'
-                            k = classify(c, None, MV)
-                            if k == 'pawn-move':
-                                return as_bool(pawn, vals)
-                            if k == 'capture':
-                                return as_bool(capture, vals)
-                            if k == 'not-capture':
-                                return as_bool(not capture, vals)
-                            if k == 'rights-changed':
-                                return None     # must not matter: explore both outcomes
-                            unknown.append(k)
-                            return None
+                        decide = move_kind_decide(ctx.facts(), ELEM, mm_disc, MV, ismove, pawn, capture, None, unknown)
                         leaves = set(eval_tree(lv, decide))
                         if not ismove:
                             want = counter
@@ -292,18 +335,42 @@ def run(ctx):
     else:
         ctx.violation('C11.R4', KEY + ':loop-entry', 'entries are not pushed exactly once per MakeMove (found %d pushes, guards %s)' % (
             len(inl), [n_ for c in inl for n_, _, _ in body_guards(c['blk'])]), w)
+    def possible(conj, decide):
+        """can all branch outcomes of this reaching condition hold for a move of the kind `decide` describes?"""
+        for g in conj:
+            if g['cond'] is None:
+                continue
+            probe = ('ite', g['cond'], tuple((v, ('int', i, 'case')) for i, v in enumerate(g['all'])))
+            chosen = {g['all'][l[1]] for l in eval_tree(probe, decide) if isinstance(l, tuple) and l and l[0] == 'int' and l[2] == 'case'}
+            if not (chosen & set(g['vals'])):
+                return False
+        return True
+
     for c in clears:
         if c['blk'] not in L['blocks']:
             ctx.violation('C11.R4', KEY + ':clear-outside', 'the repetition list is cleared outside the replay loop', where(body, c['line']))
             continue
-        for gs in body_dnf(c['blk']):
-            pos = [n_ for n_, tv, _ in gs if (tv is True and n_ in ('pawn-move', 'capture', 'rights-changed')) or (tv is False and n_ == 'not-capture')]
-            foreign = [n_ for n_, tv, _ in gs if n_.startswith('other')]
-            if pos:
-                ctx.ok('C11.R4', 'list cleared on an irreversible event (%s)' % pos[-1], where(body, c['line']))
-            else:
-                ctx.violation('C11.R4', KEY + ':clear:' + (foreign[0].split(':')[0] if foreign else 'unconditional'),
-                              'the repetition list is cleared under %s' % (foreign or 'no irreversible-event condition'), where(body, c['line']))
+        conjs = dnf(s, c['blk'], within=L['blocks'])
+        bad = None
+        unknown = []
+        for ismove in (True, False):
+            for pawn in (True, False):
+                for capture in (True, False):
+                    for rights in (True, False):
+                        irreversible = ismove and (pawn or capture or rights)
+                        if irreversible:
+                            continue
+                        decide = move_kind_decide(ctx.facts(), ELEM, mm_disc, MV, ismove, pawn, capture, rights, unknown, NEXT=norm(L['next']['result']))
+                        if any(possible(conj, decide) for conj in conjs):
+                            bad = bad or (ismove, pawn, capture, rights)
+        foreign = sorted(set(unknown))
+        if foreign:
+            ctx.violation('C11.R4', KEY + ':clear:' + foreign[0].split(':')[0], 'the repetition list is cleared under %s' % foreign[:2], where(body, c['line']))
+        elif bad:
+            ctx.violation('C11.R4', KEY + ':clear:reversible', 'the repetition list is cleared for %s: earlier occurrences of the position are forgotten' % (
+                'a non-move action' if not bad[0] else 'a reversible move (no pawn move, no capture, castling rights unchanged)'), where(body, c['line']))
+        else:
+            ctx.ok('C11.R4', 'list cleared only on an irreversible event (pawn move, capture, or castling-rights change)', where(body, c['line']))
     # --- R3 repetition search
     reps = []
     for st in s.stores:
